@@ -208,31 +208,26 @@ theorem lstar_pos {Y : ℝ} (hY : 0 < Y) : 0 < 116 * fSpec Y - 16 := by
   · rw [fSpec_low h2]; linarith
   · have := (fSpec_high_gt h2).1; linarith
 
-/-- algebra of the CIELUV → XYZ inversion as the library writes it (`a`, `b`, `c`, `d` coefficients):
-with `u = 13 L (u' - u0)`, `v = 13 L (v' - v0)` it returns `(X, Y, Z)·(y/Y)` where `y` is the recovered
-luminance.  Needs `L ≠ 0`, `X ≠ 0`, `Y ≠ 0`, `X + 15Y + 3Z ≠ 0`. -/
-theorem luv_rev_algebra {L y X Y Z u0 v0 : ℝ} (hL : L ≠ 0) (hX : X ≠ 0) (hY : Y ≠ 0)
+/-- algebra of the CIELUV → XYZ inversion as the library writes it (`up = u/(13L) + u0`,
+`vp = v/(13L) + v0`, `x = y·9up/(4vp)`, `z = y(12 - 3up - 20vp)/(4vp)`): with `u = 13 L (u' - u0)`,
+`v = 13 L (v' - v0)` it returns `(X, Y, Z)·(y/Y)` where `y` is the recovered luminance.
+Needs `L ≠ 0`, `Y ≠ 0`, `X + 15Y + 3Z ≠ 0`; `X = 0` is allowed. -/
+theorem luv_rev_algebra {L y X Y Z u0 v0 : ℝ} (hL : L ≠ 0) (hY : Y ≠ 0)
     (hD : X + 15 * Y + 3 * Z ≠ 0) :
-    (y * (39 * L / (13 * L * (9 * Y / (X + 15 * Y + 3 * Z) - v0) + 13 * L * v0) - 5) - -5 * y) /
-        (1 / 3 * (52 * L / (13 * L * (4 * X / (X + 15 * Y + 3 * Z) - u0) + 13 * L * u0) - 1) - -1 / 3)
+    y * (9 * (13 * L * (4 * X / (X + 15 * Y + 3 * Z) - u0) / (13 * L) + u0)) /
+        (4 * (13 * L * (9 * Y / (X + 15 * Y + 3 * Z) - v0) / (13 * L) + v0))
       = X * (y / Y) ∧
-    (y * (39 * L / (13 * L * (9 * Y / (X + 15 * Y + 3 * Z) - v0) + 13 * L * v0) - 5) - -5 * y) /
-        (1 / 3 * (52 * L / (13 * L * (4 * X / (X + 15 * Y + 3 * Z) - u0) + 13 * L * u0) - 1) - -1 / 3) *
-        (1 / 3 * (52 * L / (13 * L * (4 * X / (X + 15 * Y + 3 * Z) - u0) + 13 * L * u0) - 1)) + -5 * y
+    y * (12 - 3 * (13 * L * (4 * X / (X + 15 * Y + 3 * Z) - u0) / (13 * L) + u0)
+          - 20 * (13 * L * (9 * Y / (X + 15 * Y + 3 * Z) - v0) / (13 * L) + v0)) /
+        (4 * (13 * L * (9 * Y / (X + 15 * Y + 3 * Z) - v0) / (13 * L) + v0))
       = Z * (y / Y) := by
-  have h1 : 13 * L * (4 * X / (X + 15 * Y + 3 * Z) - u0) + 13 * L * u0
-      = 13 * L * (4 * X / (X + 15 * Y + 3 * Z)) := by ring
-  have h2 : 13 * L * (9 * Y / (X + 15 * Y + 3 * Z) - v0) + 13 * L * v0
-      = 13 * L * (9 * Y / (X + 15 * Y + 3 * Z)) := by ring
-  have h3 : 52 * L / (13 * L * (4 * X / (X + 15 * Y + 3 * Z))) = (X + 15 * Y + 3 * Z) / X := by
+  have h1 : 13 * L * (4 * X / (X + 15 * Y + 3 * Z) - u0) / (13 * L) + u0 = 4 * X / (X + 15 * Y + 3 * Z) := by
     field_simp; ring
-  have h4 : 39 * L / (13 * L * (9 * Y / (X + 15 * Y + 3 * Z))) = (X + 15 * Y + 3 * Z) / (3 * Y) := by
+  have h2 : 13 * L * (9 * Y / (X + 15 * Y + 3 * Z) - v0) / (13 * L) + v0 = 9 * Y / (X + 15 * Y + 3 * Z) := by
     field_simp; ring
-  have h5 : 1 / 3 * ((X + 15 * Y + 3 * Z) / X - 1) - -1 / 3 = (X + 15 * Y + 3 * Z) / (3 * X) := by
-    field_simp; ring
-  rw [h1, h2, h3, h4, h5]
+  rw [h1, h2]
   constructor
-  · field_simp; ring
+  · field_simp
   · field_simp; ring
 
 /-- the sRGB linearisation of the library maps non-negative values to non-negative values -/
